@@ -297,7 +297,9 @@ mm_submit_job(struct mmgr *mm, int nocheck, int expect_err)
         e = fifo_at(mm, mm->count);
         e->slot = slot;
         e->snap = *slot;
-        e->expect_reject = expect_err == 0 ? 0 : (expect_err == -2 ? -1 : 1);
+        e->expect_reject = expect_err == 0 ? 0 : ((expect_err == -2 || expect_err == -3) ? -1 : 1);
+        if (expect_err == -3)
+                expect_err = 0; /* accepted (error code 0), final status not predicted */
         e->id = mm->next_id++;
         mm->count++;
         mm->n_submit++;
@@ -422,12 +424,16 @@ mm_submit_burst(struct mmgr *mm, uint32_t n, IMB_JOB **jobs, int nocheck, int ex
         if (jobs)
                 memcpy(in, jobs, nn * sizeof *in);
         int before = mm->count;
+        /* -3: valid jobs (accepted, error code 0) whose final status is not predicted (failing CUSTOM callbacks) */
+        const int any_final = expect_err == -3;
+        if (any_final)
+                expect_err = 0;
         if (expect_err == 0) {
                 for (uint32_t i = 0; i < nn; i++) {
                         struct ring_ent *e = fifo_at(mm, mm->count);
                         e->slot = in[i];
                         e->snap = *in[i];
-                        e->expect_reject = 0;
+                        e->expect_reject = any_final ? -1 : 0;
                         e->id = mm->next_id++;
                         mm->count++;
                         mm->n_submit++;
